@@ -68,7 +68,12 @@ func accepted(e eco.Eco, s string) bool {
 // mutateOnce applies one structural edit to v.
 func mutateOnce(t *rapid.T, e eco.Eco, v, l string) string {
 	toks := Tokens(v)
-	switch rapid.IntRange(0, 9).Draw(t, l+"op") {
+	switch rapid.IntRange(0, 10).Draw(t, l+"op") {
+	case 10: // toggle a leading "v" (a prefix in some ecosystems, part of the version in others)
+		if strings.HasPrefix(v, "v") || strings.HasPrefix(v, "V") {
+			return v[1:]
+		}
+		return "v" + v
 	case 0, 1, 2: // change a numeric token
 		var idx []int
 		for i, tk := range toks {
@@ -80,7 +85,9 @@ func mutateOnce(t *rapid.T, e eco.Eco, v, l string) string {
 			return v
 		}
 		i := idx[rapid.IntRange(0, len(idx)-1).Draw(t, l+"ni")]
-		switch rapid.IntRange(0, 7).Draw(t, l+"nk") {
+		switch rapid.IntRange(0, 8).Draw(t, l+"nk") {
+		case 8:
+			toks[i] = Pick(t, l+"nv", wide...)
 		case 0, 1:
 			toks[i] = incDec(toks[i], true)
 		case 2:
